@@ -82,6 +82,18 @@ func c23Parse(b []byte) (n c23Node, used int, st int) {
 		}
 	}
 	if size > uint64(len(b)-hdr) {
+		if t >= 0xc0 {
+			// for labelling only: the items that are present in the truncated list
+			n.List = true
+			for payload := b[hdr:]; len(payload) > 0; {
+				k, u, s := c23Parse(payload)
+				if s != c23OK {
+					break
+				}
+				n.Kids = append(n.Kids, k)
+				payload = payload[u:]
+			}
+		}
 		return n, 0, c23Beyond
 	}
 	payload := b[hdr : hdr+int(size)]
@@ -1180,6 +1192,10 @@ func (e *c23Env) decode(tg c23Target, in []byte, family string) {
 	}
 	atomic.AddInt64(&e.okDec, 1)
 	if st == c23Beyond || st == c23Empty {
+		if st == c23Beyond && c23NilInStructField(tg.t, node) {
+			fail("accepts-size-beyond-input:nil-marker-in-struct-field", "decoded=%s", c23Show(out.Elem()))
+			return
+		}
 		fail("accepts-size-beyond-input:"+tg.name+":"+c23HeaderClass(in), "decoded=%s", c23Show(out.Elem()))
 		return
 	}
@@ -1543,7 +1559,7 @@ func c23IntFamily() [][]byte {
 
 func TestVerifC23(t *testing.T) {
 	r := ev.Start(t, "C23", "exploration")
-	r.Rule("(A) round trip: typed value grammar built with reflect — leaves: int8/16/32/64/int, uint8/16/32/64/uint at every byte-length boundary, bool, string and []byte of length {0,1,2,55,56,255,256} incl. single bytes 00/7f/80/ff and nil []byte, [4]byte, [1]byte, *big.Int (nil,0,±1,±127..129,±2^64,±2^255) and big.Int fields; constructors {pointer, slice, [2]array, map[string], 1-field struct} applied to every leaf with all leaf values (depth 1), constructor∘constructor over every leaf with representative values (depth 2), a third constructor over depth-2 shapes (quick every 4th shape, thorough all; pairwise values), integer-keyed maps, every ordered pair of leaf types as a 2-field struct, 3-field structs over 7 leaf types, 2-field structs of depth-1 shapes. (B) decoder robustness: every byte string of length<=2 (thorough: + 14 boundary first bytes x all 65536 two-byte tails) into 23 target types and UnmarshalAny; every single-byte substitution (24 boundary values; thorough all 256 values for encodings of at most 10 bytes) and truncation of valid encodings of at most 24 (thorough 32) bytes into their own type; every structural mutation of those encodings (one sub-item replaced by the nil marker / empty list / empty bytes / 00, deleted, or duplicated); length-field family (b8..bf / f8..ff headers x 18 claimed sizes x payload lengths {0,1,claim-1,claim,claim+1} x 4 fills, also nested in a list); integer family (byte strings of length 0..9 at the sign/width boundaries) into every integer type and bool. (B') pool hygiene, sequential on one P: after every accepted input of the structural, length-field and <=2-byte families the pooled BC.UnmarshalFromBytes must still decode an unrelated valid message. (C) map determinism: every insertion order of up to 4 (thorough 6) keys. distinct_nontrivial = distinct (type, encoding) resp. (target, input) pairs")
+	r.Rule("(A) round trip: typed value grammar built with reflect — leaves: int8/16/32/64/int, uint8/16/32/64/uint at every byte-length boundary, bool, string and []byte of length {0,1,2,55,56,255,256} incl. single bytes 00/7f/80/ff and nil []byte, [4]byte, [1]byte, *big.Int (nil,0,±1,±127..129,±2^64,±2^255) and big.Int fields; constructors {pointer, slice, [2]array, map[string], 1-field struct} applied to every leaf with all leaf values (depth 1), constructor∘constructor over every leaf with representative values (depth 2), a third constructor over depth-2 shapes (quick every 4th shape, thorough all; pairwise values), integer-keyed maps, every ordered pair of leaf types as a 2-field struct, 3-field structs over 7 leaf types, 2-field structs of depth-1 shapes. (B) decoder robustness: every byte string of length<=2 (+ 3-byte strings: quick first byte {b8,c3,f7,f8} x 17 boundary second bytes x all third bytes, thorough 15 boundary first bytes x all 65536 tails) into 23 target types and UnmarshalAny; every single-byte substitution (24 boundary values; thorough all 256 values for encodings of at most 10 bytes) and truncation of valid encodings of at most 24 (thorough 32) bytes into their own type; every structural mutation of those encodings (one sub-item replaced by the nil marker / empty list / empty bytes / 00, deleted, or duplicated); length-field family (b8..bf / f8..ff headers x 18 claimed sizes x payload lengths {0,1,claim-1,claim,claim+1} x 4 fills, also nested in a list); integer family (byte strings of length 0..9 at the sign/width boundaries) into every integer type and bool. (B') pool hygiene, sequential on one P: after every accepted input of the structural, length-field and <=2-byte families the pooled BC.UnmarshalFromBytes must still decode an unrelated valid message. (C) map determinism: every insertion order of up to 4 (thorough 6) keys. distinct_nontrivial = distinct (type, encoding) resp. (target, input) pairs")
 	r.Assume("a pointer to a nil slice/map/pointer has the same encoding (f8 00) as a nil pointer: the format cannot keep them apart, the decoder returns the former, and the comparison treats the two as one value",
 		"interface-typed fields and ordered TypedDict.Keys are encode-only resp. order-preserving by design and are not compared structurally (typed objects are compared through UnmarshalAny)",
 		"the independent RLP reader in the harness (with goloop's f8 00 = nil extension) is trusted for sizes and structure")
@@ -1824,14 +1840,25 @@ func TestVerifC23(t *testing.T) {
 	}
 	r.Set("structural_mutations", structural)
 	r.Set("structural_mutation_kinds", fmt.Sprint(structKinds))
-	// B5 thorough: 3-byte inputs = every boundary first byte x all 65536 tails
-	if r.Thorough() {
-		firsts := []byte{0x7f, 0x80, 0x81, 0xb7, 0xb8, 0xb9, 0xbf, 0xc0, 0xc1, 0xc2, 0xf7, 0xf8, 0xf9, 0xff}
+	// B5 3-byte inputs. thorough: every boundary first byte x all 65536 tails;
+	// quick: first byte in {b8,c3,f7,f8} x 17 boundary second bytes x all third bytes
+	{
+		firsts := []byte{0xb8, 0xc3, 0xf7, 0xf8}
+		if r.Thorough() {
+			firsts = []byte{0x7f, 0x80, 0x81, 0xb7, 0xb8, 0xb9, 0xbf, 0xc0, 0xc1, 0xc2, 0xc3, 0xf7, 0xf8, 0xf9, 0xff}
+		}
+		second := map[byte]bool{}
+		for _, v := range subst {
+			second[v] = true
+		}
 		for _, x := range firsts {
 			if expired() {
 				break
 			}
 			for y := 0; y < 256; y++ {
+				if !r.Thorough() && !second[byte(y)] {
+					continue
+				}
 				for z := 0; z < 256; z++ {
 					in := []byte{x, byte(y), byte(z)}
 					nDec += int64(len(targets)) + 1
